@@ -352,6 +352,10 @@ End FormattedDet.
    EDV formatter: embedded in the encrypted document) -- after fix 8f3c855 that is always the key of the Key tag. *)
 Definition KEYN : N := 500.                       (* the tag name "Key" *)
 Definition kenc (k : key) : N := k + 1000.        (* base64 of the key *)
+(* the value of the Key tag as a function of the key: base64(key) for EVERY key.  The lookup of an entry by its key is
+   only correct because this function is injective (Props2.key_tag_value_injective); Corr compares the table of Key tag
+   values the real code writes (observed at a recording provider) with it. *)
+Definition key_tag_value (k : key) : N := kenc k.
 Definition kdec (x : N) : N := x - 1000.
 Definition keytag (k : key) : tag := (KEYN, kenc k).
 Definition fresh (n : N) : key := 2000 + n.
